@@ -44,11 +44,26 @@ def build_schedule(u):
     """1..3 consecutive calls on ONE session (state left by an earlier call - e.g. a shortened socket timeout - must not
     affect the next one)."""
     T = u.choice(TS)
-    ver = u.choice(["v1", "v2c", "v3"])
+    # "v3d": a v3 session created WITHOUT an engine id - its first call is the refresh() that runs engine-id discovery
+    ver = u.choice(["v1", "v2c", "v3", "v3d"])
     driver = u.choice(["sync", "sync", "async"])
     kind = u.choice(["reqid", "reqid", "community_or_msgid"])
     calls = [build_call(u, T) for _ in range(u.range(1, 3))]
+    if ver == "v3d":
+        kind = u.choice(["foreign_engine", "foreign_engine", "reqid", "community_or_msgid"])
+        calls = discovery_first(calls)
     return {"T": T, "ver": ver, "driver": driver, "calls": calls, "stray_kind": kind}
+
+
+def discovery_first(calls):
+    """Shape a schedule for a session that has to discover its engine id: the first call is refresh(); datagrams scheduled
+    after its matching Report are dropped (the library sends its second, time-synchronising probe right after the Report and
+    the scripted agent answers that one at once); nothing follows a discovery that is scheduled to fail."""
+    c0 = dict(calls[0], op="refresh")
+    if c0["reply"] == "early":
+        c0["strays"] = [t for t in c0["strays"] if t < c0["reply_at"]]
+        return [c0] + calls[1:]
+    return [c0]
 
 
 def run_schedule(args):
@@ -64,8 +79,22 @@ def run_schedule(args):
     from vlib import refber as rb
     G = drivers.load()
     T = sched["T"]
+    disc = sched["ver"] == "v3d"
     cfg = {"v1": ag.Cfg("v1"), "v2c": ag.Cfg("v2c"),
-           "v3": ag.Cfg("v3", engine_id=gen.ENGINE_IDS[0], auth="sha1", auth_kt="localized")}[sched["ver"]]
+           "v3": ag.Cfg("v3", engine_id=gen.ENGINE_IDS[0], auth="sha1", auth_kt="localized"),
+           # replies are built for the agent's engine id; the session itself is created with none (see skw)
+           "v3d": ag.Cfg("v3", engine_id=gen.ENGINE_IDS[0], auth="sha1", auth_kt="password")}[sched["ver"]]
+    skw = {"engine_id": b""} if disc else {}
+    foreign = bytes(gen.ENGINE_IDS[0][:-1]) + bytes([gen.ENGINE_IDS[0][-1] ^ 0x5A])
+
+    def followup(req):
+        """The second probe of a discovering refresh() (engine id already learned): answered at once, not a scheduled call."""
+        if disc and st["await_followup"] and req.get("pdu_tag") == rb.PDU_GET and not req.get("varbinds") and bool(req.get("engine_id")):
+            st["await_followup"] = False
+            return True
+        return False
+
+    st = {"await_followup": False}
     vb = [rb.varbind(rb.enc_oid((1, 3, 6, 1, 2, 1, 1, 3, 0)), rb.enc_int(4242))]
 
     def sync_call(s, op):
@@ -106,7 +135,12 @@ def run_schedule(args):
         if probe:
             # refresh(): answered by a Report; a stray is a Report for another msgID
             if kind == "reply":
+                if disc and not req.get("engine_id"):
+                    st["await_followup"] = True
                 return ag.build_report(cfg, req, cfg.engine_id, 5, 1000)
+            if sched["stray_kind"] == "foreign_engine":
+                # a Report of some other engine for some other message: skipped, and nothing may be learned from it
+                return ag.build_report(cfg, req, foreign, 6, 999, msg_id=(req["msg_id"] ^ 0x55) & 0x7FFFFFFF)
             return ag.build_report(cfg, req, cfg.engine_id, 5, 1000, msg_id=(req["msg_id"] ^ 0x55) & 0x7FFFFFFF)
         if kind == "reply":
             return ag.build_reply(cfg, req, vb)
@@ -126,13 +160,23 @@ def run_schedule(args):
         done = threading.Event()
 
         def agent():
-            for call in sched["calls"]:
+            pending = list(sched["calls"])
+            while True:
                 try:
                     d, a = sock.recvfrom(65535)
                 except OSError:
                     return
                 t0 = time.monotonic()
                 req = ag.decode_request(cfg, d, strict=False)
+                if followup(req):
+                    try:
+                        sock.sendto(ag.build_report(cfg, req, cfg.engine_id, 5, 1000), a)
+                    except OSError:
+                        return
+                    continue
+                if not pending:
+                    continue
+                call = pending.pop(0)
                 for t, kind in events_of(call):
                     dt = t - (time.monotonic() - t0)
                     if dt > 0:
@@ -146,7 +190,7 @@ def run_schedule(args):
 
         th = threading.Thread(target=agent, daemon=True)
         th.start()
-        s = drivers.sync_session(G, cfg, port, timeout=T)
+        s = drivers.sync_session(G, cfg, port, timeout=T, **skw)
         for call in sched["calls"]:
             t0 = time.monotonic()
             try:
@@ -180,12 +224,15 @@ def run_schedule(args):
             def datagram_received(self, data, addr):
                 call = sched["calls"][min(state["i"], len(sched["calls"]) - 1)]
                 req = ag.decode_request(cfg, data, strict=False)
+                if followup(req):
+                    self.tr.sendto(ag.build_report(cfg, req, cfg.engine_id, 5, 1000), addr)
+                    return
                 for t, kind in events_of(call):
                     loop.call_later(t, self.tr.sendto, emit(req, kind), addr)
 
         tr, _ = await loop.create_datagram_endpoint(Proto, local_addr=("127.0.0.1", 0))
         port = tr.get_extra_info("sockname")[1]
-        s = drivers.async_session(G, cfg, port, timeout=T)
+        s = drivers.async_session(G, cfg, port, timeout=T, **skw)
         for i, call in enumerate(sched["calls"]):
             state["i"] = i
             t0 = time.monotonic()
@@ -315,6 +362,12 @@ def run(rep, tier):
                                     {"strays": [], "reply": "early", "reply_at": round(0.7 * T, 4), "op": "get"},
                                     {"strays": [round(0.6 * T, 4)], "reply": "early", "reply_at": round(0.7 * T, 4), "op": "get_many"},
                                     {"strays": [], "reply": "early", "reply_at": round(0.7 * T, 4), "op": "getnext"}]})
+            # engine-id discovery with a foreign engine's Report for another message ahead of the genuine one, then a request
+            canon.append({"T": T, "ver": "v3d", "driver": drv, "stray_kind": "foreign_engine",
+                          "calls": [{"strays": [round(0.3 * T, 4)], "reply": "early", "reply_at": round(0.6 * T, 4), "op": "refresh"},
+                                    {"strays": [round(0.3 * T, 4)], "reply": "early", "reply_at": round(0.6 * T, 4), "op": "get"}]})
+            canon.append({"T": T, "ver": "v3d", "driver": drv, "stray_kind": "foreign_engine",
+                          "calls": [{"strays": [round(0.4 * T, 4), round(0.9 * T, 4), round(1.4 * T, 4)], "reply": "none", "reply_at": None, "op": "refresh"}]})
     scheds = canon + scheds
     ctx = mp.get_context("spawn")
     import concurrent.futures as cf
